@@ -154,6 +154,16 @@ class RunCtx(object):
     self.counts = {}
 
 
+class NoCopy(object):
+  """A validator object whose deep copy raises."""
+
+  def __call__(self, value):
+    return True
+
+  def __deepcopy__(self, memo):
+    raise RuntimeError('this validator cannot be copied')
+
+
 def make_phase(name, beh, ctx):
   L = lib()
   h = L['htf']
@@ -201,7 +211,10 @@ def make_phase(name, beh, ctx):
     kw['run_if'] = run_if_fn
   kw.update(opts)
   ph = h.PhaseOptions(name=name, **kw)(body)
-  if meas != 'none':
+  if meas == 'nocopy':
+    # a validator that cannot be deep-copied: building the phase state fails *inside the executor thread*
+    ph = h.measures(h.Measurement('m_' + name).with_validator(NoCopy()))(ph)
+  elif meas != 'none':
     ph = h.measures(h.Measurement('m_' + name).in_range(0, 10, marginal_maximum=9))(ph)
   if beh.get('plug'):
     ph = L['plugs'].plug(update_kwargs=False, lp=L['LogPlug'])(ph)
